@@ -105,8 +105,8 @@ def classify(unit: Unit, vr):
     """Map diagnostics to obligations.  Returns dict with keys:
        failed: {obl_id: [diag summaries]}, canary_failed: set(fn), machinery: [msgs], undecided: [msgs]"""
     g = unit.gen
-    fn_regions = [r for r in g.regions if r["kind"] in ("fn", "canary", "lemma")]
-    clause_obl = [o for o in unit.obligations if o["kind"] in ("ensures", "invariant")]
+    fn_regions = [r for r in g.regions if r["kind"] in ("fn", "canary", "lemma", "variant")]
+    clause_obl = [o for o in unit.obligations if o["kind"] in ("ensures", "invariant", "cancel_point")]
     failed = {}
     canary_failed = set()
     machinery = []
@@ -167,11 +167,16 @@ def classify(unit: Unit, vr):
         if fn_reg["kind"] == "canary":
             canary_failed.add(fn_reg["fn"])
             continue
+        if fn_reg["kind"] == "variant":
+            # twin carrying only selected obligations: everything else in it duplicates the main copy
+            if hit_clause is not None and hit_clause["fn"] == fn_reg.get("item") and hit_clause["kind"] == "cancel_point" and "assertion" in low:
+                failed.setdefault(hit_clause["id"], []).append(summary)
+            continue
         if fn_reg["kind"] == "lemma":
             oid = "%s::lemma.%s" % (unit.name, fn_reg["fn"])
             failed.setdefault(oid, []).append(summary)
             continue
-        if hit_clause is not None and hit_clause["fn"] == fn_reg.get("item") and ("postcondition" in low or "invariant" in low):
+        if hit_clause is not None and hit_clause["fn"] == fn_reg.get("item") and ("postcondition" in low or "invariant" in low or (hit_clause["kind"] == "cancel_point" and "assertion" in low)):
             failed.setdefault(hit_clause["id"], []).append(summary)
         else:
             oid = "%s::%s.safety" % (unit.name, fn_reg["item"])
